@@ -21,6 +21,8 @@ import (
 	"github.com/joeqian10/neo3-gogogo/tx"
 	"github.com/polynetwork/poly/common"
 	cstates "github.com/polynetwork/poly/core/states"
+	ccmcom "github.com/polynetwork/poly/native/service/cross_chain_manager/common"
+	ccmneo3 "github.com/polynetwork/poly/native/service/cross_chain_manager/neo3"
 	"github.com/polynetwork/poly/native/service/governance/neo3_state_manager"
 	hscommon "github.com/polynetwork/poly/native/service/header_sync/common"
 	"github.com/polynetwork/poly/native/service/header_sync/neo3"
@@ -34,7 +36,8 @@ import (
 //
 //	nsv <k1,k2,...|->                         store the registered state validators (raw write of the record that
 //	                                          neo3_state_manager.GetCurrentStateValidator reads)
-//	nmsg3 <index> <wscript|-> <sigs>          neo3.VerifyCrossChainMsgSig
+//	nmsg3 <index> <wscript|-> <sigs>          neo3.VerifyCrossChainMsgSig, and cross_chain_manager Neo3Handler.MakeDepositProposal
+//	                                          up to the proof check
 type n3Fam struct {
 	db     *storage.CacheDB
 	stream string
@@ -147,6 +150,8 @@ func n3ErrClass(err error) string {
 		return "reject:witness"
 	case strings.Contains(m, "incorrect witness length"):
 		return "reject:nowitness"
+	case strings.Contains(m, "VerifyFromNeoTx error") || strings.Contains(m, "Verify Neo cross chain proof error"):
+		return "verified"
 	case strings.Contains(m, "Deserialize error") || strings.Contains(m, "FromBytes error"):
 		return "reject:decode"
 	}
@@ -347,6 +352,31 @@ func (f *n3Fam) Exec(r *hx.Run, op []string) string {
 			msg.Witnesses = []models.RpcWitness{{Invocation: crypto.Base64Encode(inv), Verification: crypto.Base64Encode(n3Script(wd))}}
 		}
 		res := n3ErrClass(neo3.VerifyCrossChainMsgSig(newNative(f.db, nil), n3Magic, msg))
+		if op[2] != "-" {
+			// the same state root through the deposit handler, with a well-formed proof for another contract id
+			// (NOTE: malformed proofs can make the library's proof reader loop; never pass an empty one)
+			sink := common.NewZeroCopySink(nil)
+			if err := msg.Serialization(sink); err != nil {
+				panic(err)
+			}
+			ep := &ccmcom.EntranceParam{SourceChainID: n3ChainID, Height: uint32(idx), Proof: []byte{5, 99, 0, 0, 0, 0x41, 0}, RelayerAddress: []byte{},
+				Extra: []byte{}, HeaderOrCrossChainMsg: sink.Bytes()}
+			ps := common.NewZeroCopySink(nil)
+			ep.Serialization(ps)
+			res2 := "panic"
+			func() {
+				defer func() {
+					if e := recover(); e != nil {
+						res2 = "panic:" + strings.ReplaceAll(fmt.Sprint(e), " ", "_")
+					}
+				}()
+				_, err2 := ccmneo3.NewNeo3Handler().MakeDepositProposal(newNative(f.db, ps.Bytes()))
+				res2 = n3ErrClass(err2)
+			}()
+			if (res == "ok") != (res2 == "verified") || (res != "ok" && res2 != res) {
+				return res + " DEPOSIT-HANDLER-DIFFERS:" + res2
+			}
+		}
 		if res == "ok" {
 			// property oracle (C24): the script must be over exactly the registered validators with m = n-(n-1)/3 and
 			// carry m genuine signatures by distinct registered validators
